@@ -25,7 +25,7 @@ ENGINES = [
 META = {
     'C01': {
         'engine': 'E1 world', 'level': 'exploration', 'design_ref': 'DESIGN.md 5 C01',
-        'technique': 'deterministic simulation: seeded multi-PR histories against real Bert-E and real git, invariant checked after every job',
+        'technique': 'deterministic simulation with fault injection: seeded multi-PR histories against real Bert-E and real git, one job in ten with the remote refusing every update of one destination branch, invariant checked after every job',
         'text': 'Seeded search over histories (PRs on any destination, pushes, rebases, CI reports in any order, comments, admin jobs, restarts, duplicate deliveries) on random cascades of 1-4 development branches with stabilization/hotfix/major-only branches, queue / no-queue / skip-queue, octopus / no_octopus; after every single job the inclusion chain is evaluated on the bare remote with git merge-base. Evidence, not proof.',
         'note': E1_NOTE + 'Oracle is the conditional form of the statement (evaluated only if the chain held before the job); ill-formed layouts by C09 rules are excluded for the pairs concerned.'},
     'C02': {
@@ -68,8 +68,8 @@ META.update({
         'note': E1_NOTE + 'Non-numeric after_pull_request values are treated as unspecified; branch names in the robot namespace (q/..., w/...) are not used as foreign sources.'},
     'C15': {
         'engine': 'E1 world', 'level': 'exploration', 'design_ref': 'DESIGN.md 5 C15',
-        'technique': 'deterministic simulation: seeded histories of source rewrites and manual commits on integration branches with known provenance, then reset/force_reset',
-        'text': 'Histories in which sources are amended, rebased, extended, hard-reset, merged with their destination, and manual commits (plain or hand-made merges, by author or peer) are pushed on w/ branches in any order before reset or force_reset. The simulator knows each commit\'s provenance: if a w/ branch of the PR still holds a manual commit, reset must end LossyResetWarning with no ref changed and nothing declined; either command may delete only that PR\'s w/ branches and decline only its integration PRs; the next gated evaluation must have rebuilt the w/ branches.',
+        'technique': 'deterministic simulation with fault injection: seeded histories of source rewrites and manual commits on integration branches with known provenance, then reset/force_reset, the executing job also re-run with one git command failing at sampled positions',
+        'text': 'Histories in which sources are amended, rebased, extended, hard-reset, merged with their destination, and manual commits (plain or hand-made merges, by author or peer) are pushed on w/ branches in any order before reset or force_reset. The simulator knows each commit\'s provenance: if a w/ branch of the PR still holds a manual commit, reset must end LossyResetWarning with no ref changed and nothing declined; either command may delete only that PR\'s w/ branches and decline only its integration PRs; the next gated evaluation must have rebuilt the w/ branches. The job that executes the command is re-run in fork() snapshots with one git sub-process failing (half of the sampled positions inside clone()): whatever it answers then, the manual commit must still be on the remote.',
         'note': E1_NOTE + 'A refusal without manual work is an observation, not a violation.'},
     'C19': {
         'engine': 'E1 world', 'level': 'exploration', 'design_ref': 'DESIGN.md 5 C19',
